@@ -314,9 +314,11 @@ string read_all(int fd) {
       throw io_error(fd);
     }
 
+    // A short read does not mean end of stream (pipes, sockets and ttys return
+    // whatever is available); only a zero-length read does
     total_size += bytes_read;
-    if (bytes_read < read_size) {
-      buffers.back().resize(bytes_read);
+    buffers.back().resize(bytes_read);
+    if (bytes_read == 0) {
       break;
     }
   }
